@@ -156,6 +156,9 @@ def generate(seed, tier):
     if not huge_k and rw.random() < 0.35:
         sc["refills"] = [dict(data, rng=rw.randrange(2 ** 31), recipe=rw.choice(["noise", "sine+noise", "randwalk", "trend+noise"]))
                          for _ in range(rw.randrange(1, 3))]
+    # history inside one process: the same (L, omega) first analysed in auto mode, then in cross mode
+    if mode == "csd" and rw.random() < 0.4:
+        sc["auto_first"] = True
     if via == "analyzer":
         # extra bins before/after so that the bin of interest is not the only one (dispatch alignment)
         nb = rw.randrange(0, 3)
@@ -230,6 +233,17 @@ def _execute_stage(sc, out, x, y, stage):
         world = ws["world"]
         site_w = {"sim-numba": "numba", "real-numba": "numba", "numpy": "numpy", "sim-cuda": "cuda"}[world]
         try:
+            if sc.get("auto_first") and y is not None:
+                # auto-spectral call with the same (starts, L, window, omega) first; its own result is checked too
+                if sc["via"] == "analyzer":
+                    ra, _ = _via_analyzer(dict(sc, mode="auto"), ws, x, None, out)
+                else:
+                    ra, _ = W.run_kernel(dict(ws, serial=True), "auto", sc["order"], x, None, starts, L, w, omega)
+                out.count("auto_call_before_cross_call")
+                ref_a, _, _, _ = RM.ref_stats(x, None, starts, L, w, omega, sc["order"])
+                if not abs(ra[0] - ref_a[0]) <= RM.ref_stats.last_tols[0]:
+                    out.violate("stat_differs_from_definition:value", f"backend={site_w} mode=auto order={sc['order']} stat=MXX",
+                                f"stage {stage} world={world} (auto call preceding the cross call) L={L} K={K}: got {ra[0]!r}, definition gives {ref_a[0]!r}")
             if sc["via"] == "analyzer":
                 res, ctx = _via_analyzer(sc, ws, x, y, out)
             else:
